@@ -60,6 +60,87 @@ Proof.
   destruct (_ && _); destruct (_ && _); discriminate.
 Qed.
 
+(* ---- the caps ------------------------------------------------------------------- *)
+Definition wf_params (p : params) : Prop :=
+  p_header_gas p < W64 /\ p_call_gas p < W64 /\ p_gas_cap p < W64.
+
+(* what the sender must hold for gas limit g: g*feeCap + value + blob cost (as the
+   estimator computes the latter, i.e. modulo 2^256) *)
+Definition funds_needed (p : params) (g : N) : N :=
+  g * fee_cap p
+  + match p_value p with Some v => v | None => 0 end
+  + (if p_is_cancun p && (0 <? p_nblobs p) then blob_usage p else 0).
+
+Lemma hi_limits_lt p : wf_params p -> hi_limits p < W64.
+Proof.
+  intros (H1 & H2 & H3). unfold hi_limits.
+  destruct (_ <=? _); destruct (_ && _); try (rewrite W64_val; unfold MaxTxGas; lia); auto.
+Qed.
+
+Lemma initial_hi_caps p hi :
+  wf_params p -> initial_hi p = inr hi ->
+  hi < W64 /\
+  (p_gas_cap p <> 0 -> hi <= p_gas_cap p) /\
+  (p_is_osaka p = true -> p_is_amsterdam p = false -> hi <= MaxTxGas) /\
+  (fee_cap p <> 0 -> funds_needed p hi <= p_balance p) /\
+  hi <= N.max (p_header_gas p) (p_call_gas p).
+Proof.
+  intros Hwf H. pose proof (hi_limits_lt p Hwf) as Hl.
+  destruct Hwf as (W1 & W2 & W3).
+  assert (Hosaka : p_is_osaka p = true -> p_is_amsterdam p = false -> hi_limits p <= MaxTxGas).
+  { intros A B. unfold hi_limits. rewrite A, B. cbn [negb]. rewrite !Bool.andb_true_r.
+    destruct (TxGas <=? p_call_gas p); destruct (MaxTxGas <? _) eqn:C; lia. }
+  assert (Hmax : hi_limits p <= N.max (p_header_gas p) (p_call_gas p)).
+  { unfold hi_limits. destruct (TxGas <=? p_call_gas p); destruct (_ && _) eqn:C; lia. }
+  unfold initial_hi in H.
+  (* first the funds cap *)
+  assert (exists h1, (match available_funds p with
+            | None => inr (hi_limits p)
+            | Some (inl e) => inl e
+            | Some (inr available) =>
+                if (available / fee_cap p <? W64) && (available / fee_cap p <? hi_limits p)
+                then inr (available / fee_cap p) else inr (hi_limits p)
+            end) = (inr h1 : est_result + N) /\ h1 <= hi_limits p /\
+            (fee_cap p <> 0 -> funds_needed p h1 <= p_balance p)) as (h1 & E1 & Hh1 & Hf1).
+  { destruct (available_funds p) as [[e|av]|] eqn:EA.
+    - cbv beta iota in H. discriminate.
+    - assert (Hav : fee_cap p <> 0 /\ funds_needed p 0 + av <= p_balance p).
+      { unfold available_funds in EA. unfold funds_needed.
+        destruct (fee_cap p =? 0) eqn:F; [discriminate|]. split; [lia|].
+        destruct (p_value p) as [v|].
+        - destruct (_ <=? v) eqn:V; [discriminate|].
+          destruct (_ && _).
+          + destruct (_ <=? blob_usage p) eqn:B; [discriminate|]. injection EA as <-. lia.
+          + injection EA as <-. lia.
+        - destruct (_ && _).
+          + destruct (_ <=? blob_usage p) eqn:B; [discriminate|]. injection EA as <-. lia.
+          + injection EA as <-. lia. }
+      destruct Hav as (Hfc & Hav).
+      assert (Hdiv : (av / fee_cap p) * fee_cap p <= av).
+      { rewrite N.mul_comm. apply N.mul_div_le. exact Hfc. }
+      destruct (_ && _) eqn:C.
+      + eexists; split; [reflexivity|]. split; [lia|]. intros _.
+        unfold funds_needed in *. lia.
+      + eexists; split; [reflexivity|]. split; [lia|]. intros _.
+        assert (hi_limits p <= av / fee_cap p) by (rewrite W64_val in *; lia).
+        assert (hi_limits p * fee_cap p <= (av / fee_cap p) * fee_cap p)
+          by (apply N.mul_le_mono_r; auto).
+        unfold funds_needed in *. lia.
+    - eexists; split; [reflexivity|]. split; [lia|].
+      unfold available_funds in EA. destruct (fee_cap p =? 0) eqn:F; [lia|].
+      exfalso. destruct (p_value p); [destruct (_ <=? _)|]; try discriminate;
+        destruct (_ && _); try discriminate; destruct (_ <=? blob_usage p); discriminate. }
+  rewrite E1 in H.
+  assert (Hmono : forall a b, a <= b -> funds_needed p a <= funds_needed p b).
+  { intros a b Hab. unfold funds_needed.
+    assert (a * fee_cap p <= b * fee_cap p) by (apply N.mul_le_mono_r; auto). lia. }
+  destruct (_ && _) eqn:C; injection H as <-.
+  - repeat split; try lia.
+    intros Hf. specialize (Hf1 Hf). specialize (Hmono (p_gas_cap p) h1). lia.
+  - repeat split; try lia; auto.
+Qed.
+
+
 Section Proofs.
   Variable exec : N -> exec_result.
   Variable er_exit : N -> N -> bool.
@@ -183,9 +264,9 @@ Section Proofs.
       { intros Hf g Hg. destruct (ok g) eqn:Eg; auto.
         rewrite (Hmono g _ Hg Eg) in Hf. discriminate. }
       destruct (exec (mid_of lo hi)) eqn:E; cbn [fst] in H; try discriminate.
-      + eapply (IH (mid_of lo hi) hi); eauto. apply Hfail. unfold succeeds. rewrite E. reflexivity.
-      + eapply (IH (mid_of lo hi) hi); eauto. apply Hfail. unfold succeeds. rewrite E. reflexivity.
-      + eapply (IH lo (mid_of lo hi)); eauto.
+      + eapply (IH (mid_of lo hi) hi _ r Her Hmono Hhi Hok); [|exact H]. apply Hfail. unfold succeeds. rewrite E. reflexivity.
+      + eapply (IH (mid_of lo hi) hi _ r Her Hmono Hhi Hok); [|exact H]. apply Hfail. unfold succeeds. rewrite E. reflexivity.
+      + eapply (IH lo (mid_of lo hi) _ r Her Hmono); [| |exact Hlo|exact H].
         * pose proof (mid_lt_W64 lo hi). lia.
         * eapply ok_of_exec; exact E.
   Qed.
@@ -235,86 +316,6 @@ Section Proofs.
       + apply search_le in H; auto.
   Qed.
 
-  (* ---- the caps ------------------------------------------------------------------- *)
-  Definition wf_params (p : params) : Prop :=
-    p_header_gas p < W64 /\ p_call_gas p < W64 /\ p_gas_cap p < W64.
-
-  (* what the sender must hold for gas limit g: g*feeCap + value + blob cost (as the
-     estimator computes the latter, i.e. modulo 2^256) *)
-  Definition funds_needed (p : params) (g : N) : N :=
-    g * fee_cap p
-    + match p_value p with Some v => v | None => 0 end
-    + (if p_is_cancun p && (0 <? p_nblobs p) then blob_usage p else 0).
-
-  Lemma hi_limits_lt p : wf_params p -> hi_limits p < W64.
-  Proof.
-    intros (H1 & H2 & H3). unfold hi_limits.
-    destruct (_ <=? _); destruct (_ && _); try (rewrite W64_val; unfold MaxTxGas; lia); auto.
-  Qed.
-
-  Lemma initial_hi_caps p hi :
-    wf_params p -> initial_hi p = inr hi ->
-    hi < W64 /\
-    (p_gas_cap p <> 0 -> hi <= p_gas_cap p) /\
-    (p_is_osaka p = true -> p_is_amsterdam p = false -> hi <= MaxTxGas) /\
-    (fee_cap p <> 0 -> funds_needed p hi <= p_balance p) /\
-    hi <= N.max (p_header_gas p) (p_call_gas p).
-  Proof.
-    intros Hwf H. pose proof (hi_limits_lt p Hwf) as Hl.
-    destruct Hwf as (W1 & W2 & W3).
-    assert (Hosaka : p_is_osaka p = true -> p_is_amsterdam p = false -> hi_limits p <= MaxTxGas).
-    { intros A B. unfold hi_limits. rewrite A, B. cbn [negb]. rewrite !Bool.andb_true_r.
-      destruct (TxGas <=? p_call_gas p); destruct (MaxTxGas <? _) eqn:C; lia. }
-    assert (Hmax : hi_limits p <= N.max (p_header_gas p) (p_call_gas p)).
-    { unfold hi_limits. destruct (TxGas <=? p_call_gas p); destruct (_ && _) eqn:C; lia. }
-    unfold initial_hi in H.
-    (* first the funds cap *)
-    assert (exists h1, (match available_funds p with
-              | None => inr (hi_limits p)
-              | Some (inl e) => inl e
-              | Some (inr available) =>
-                  if (available / fee_cap p <? W64) && (available / fee_cap p <? hi_limits p)
-                  then inr (available / fee_cap p) else inr (hi_limits p)
-              end) = (inr h1 : est_result + N) /\ h1 <= hi_limits p /\
-              (fee_cap p <> 0 -> funds_needed p h1 <= p_balance p)) as (h1 & E1 & Hh1 & Hf1).
-    { destruct (available_funds p) as [[e|av]|] eqn:EA.
-      - cbv beta iota in H. discriminate.
-      - assert (Hav : fee_cap p <> 0 /\ funds_needed p 0 + av <= p_balance p).
-        { unfold available_funds in EA. unfold funds_needed.
-          destruct (fee_cap p =? 0) eqn:F; [discriminate|]. split; [lia|].
-          destruct (p_value p) as [v|].
-          - destruct (_ <=? v) eqn:V; [discriminate|].
-            destruct (_ && _).
-            + destruct (_ <=? blob_usage p) eqn:B; [discriminate|]. injection EA as <-. lia.
-            + injection EA as <-. lia.
-          - destruct (_ && _).
-            + destruct (_ <=? blob_usage p) eqn:B; [discriminate|]. injection EA as <-. lia.
-            + injection EA as <-. lia. }
-        destruct Hav as (Hfc & Hav).
-        assert (Hdiv : (av / fee_cap p) * fee_cap p <= av).
-        { rewrite N.mul_comm. apply N.mul_div_le. exact Hfc. }
-        destruct (_ && _) eqn:C.
-        + eexists; split; [reflexivity|]. split; [lia|]. intros _.
-          unfold funds_needed in *. lia.
-        + eexists; split; [reflexivity|]. split; [lia|]. intros _.
-          assert (hi_limits p <= av / fee_cap p) by (rewrite W64_val in *; lia).
-          assert (hi_limits p * fee_cap p <= (av / fee_cap p) * fee_cap p)
-            by (apply N.mul_le_mono_r; auto).
-          unfold funds_needed in *. lia.
-      - eexists; split; [reflexivity|]. split; [lia|].
-        unfold available_funds in EA. destruct (fee_cap p =? 0) eqn:F; [lia|].
-        exfalso. destruct (p_value p); [destruct (_ <=? _)|]; try discriminate;
-          destruct (_ && _); try discriminate; destruct (_ <=? blob_usage p); discriminate. }
-    rewrite E1 in H.
-    assert (Hmono : forall a b, a <= b -> funds_needed p a <= funds_needed p b).
-    { intros a b Hab. unfold funds_needed.
-      assert (a * fee_cap p <= b * fee_cap p) by (apply N.mul_le_mono_r; auto). lia. }
-    destruct (_ && _) eqn:C; injection H as <-.
-    - repeat split; try lia.
-      intros Hf. specialize (Hf1 Hf). specialize (Hmono (p_gas_cap p) h1). lia.
-    - repeat split; try lia; auto.
-  Qed.
-
   (* The result is at most the initial hi — except through the plain-transfer
      shortcut, which answers 21000 without looking at hi. *)
   Theorem estimate_le_hi fuel p hi r :
@@ -327,6 +328,31 @@ Section Proofs.
     - destruct (exec TxGas) eqn:E; try solve [left; eapply estimate_from_le; [exact Hlt | exact H]].
       right. cbn [fst] in H. injection H as <-. repeat split. eapply ok_of_exec; exact E.
     - left; eapply estimate_from_le; [exact Hlt | exact H].
+  Qed.
+
+  (* Under the guard that the shortcut's 21000 is itself within hi (i.e. every cap is at
+     least params.TxGas, or the call is not a plain transfer), the estimate respects the
+     funds, the gas cap, the Osaka per-transaction cap and the requested/header limit. *)
+  Theorem estimate_le_caps fuel p hi r :
+    wf_params p -> initial_hi p = inr hi ->
+    (plain_transfer p = true -> TxGas <= hi) ->
+    fst (estimate_fuel fuel p) = EstOk r ->
+    r <= hi /\
+    (p_gas_cap p <> 0 -> r <= p_gas_cap p) /\
+    (p_is_osaka p = true -> p_is_amsterdam p = false -> r <= MaxTxGas) /\
+    (fee_cap p <> 0 -> funds_needed p r <= p_balance p) /\
+    r <= N.max (p_header_gas p) (p_call_gas p).
+  Proof.
+    intros Hwf Hi Hg H.
+    destruct (initial_hi_caps p hi Hwf Hi) as (Hlt & Hc & Ho & Hf & Hm).
+    assert (Hr : r <= hi).
+    { destruct (estimate_le_hi fuel p hi r Hwf Hi H) as [|(Hp & -> & _)]; auto. }
+    split; [exact Hr|]. repeat split.
+    - intros X. specialize (Hc X). lia.
+    - intros X Y. specialize (Ho X Y). lia.
+    - intros X. specialize (Hf X). unfold funds_needed in *.
+      assert (r * fee_cap p <= hi * fee_cap p) by (apply N.mul_le_mono_r; auto). lia.
+    - lia.
   Qed.
 
   (* ---- minimality ---------------------------------------------------------------- *)
@@ -494,6 +520,8 @@ Proof.
     destruct (g' <? 21000) eqn:A'; [lia|].
     destruct (g' <? 18446744073709551615) eqn:B'; [lia|]. reflexivity. }
   split.
-  { intros u m. vm_compute. intros H. injection H as <- <-. repeat split; discriminate. }
+  { intros u m.
+    assert (E : refute_term_exec (p_call_gas refute_term_params) = ExOk 21020 21020) by (vm_compute; reflexivity).
+    rewrite E. intros H. injection H as <- <-. vm_compute. repeat split; discriminate. }
   split; vm_compute; reflexivity.
 Qed.
